@@ -29,6 +29,35 @@ structure FxTarget where
   SourceChannel : Str
   deriving DecidableEq, Repr
 
+/-! ## call structure of `Keeper.Attest` (the table `attestTrySites` in Gen/C03.lean is regenerated from the AST) -/
+
+/-- which attestation a `TryAttestation` call site is handed -/
+inductive AttSel where
+  | voted    -- the one looked up (or created) under the voter's own key `nonce ‖ ClaimHash(claim)`
+  | stored   -- some other stored attestation (e.g. each open attestation of the nonce, in a loop)
+  | other
+  deriving DecidableEq, Repr
+
+/-- which claim object a `TryAttestation` call site is handed (the one that will be executed) -/
+inductive ClaimSel where
+  | voter     -- the claim being submitted
+  | recorded  -- the claim recorded in the attestation that is handed over (`UnpackAttestationClaim`)
+  | other
+  deriving DecidableEq, Repr
+
+structure TrySite where
+  att : AttSel
+  claim : ClaimSel
+  inLoop : Bool
+  fn : String
+  guard : String
+  deriving Repr
+
+/-- the claim handed to `TryAttestation` hashes to the key of the attestation whose votes are tallied: either it is the
+voter's claim together with the attestation found under the voter's key, or it is the attestation's own recorded claim -/
+def TrySite.wellKeyed (t : TrySite) : Bool :=
+  (t.att == .voted && t.claim == .voter) || t.claim == .recorded
+
 namespace Go
 
 /-! ## package strings -/
@@ -127,6 +156,23 @@ def hex_DecodeString : Str → Str
   | _ => []
 
 def hex_EncodeToString (s : Str) : Str := fmtHexStr s
+
+/-! ## loops that write list elements into a `strings.Builder` -/
+
+/-- `for _, x := range xs { b.WriteString(f x) }` -/
+def concatMap {α : Type} (f : α → Str) (xs : List α) : Str := xs.flatMap f
+
+/-- the same with `if i > 0 { b.WriteString(sep) }` in front -/
+def joinMap {α : Type} (sep : Str) (f : α → Str) (xs : List α) : Str := strings_Join (xs.map f) sep
+
+/-- what the translator could not model (an unknown function, a statement it does not understand): an opaque string, so
+that `Gen/C03.lean` always compiles — the driver then disagrees with the real hash and nothing can be proved about it -/
+opaque unmodelledStr (src : String) : Str
+
+/-! ## strconv -/
+
+def strconv_FormatUint (n : Nat) (base : Nat) : Str := Nat.toDigits base n
+def strconv_Itoa (n : Nat) : Str := Nat.toDigits 10 n
 
 /-! ## sdkmath.Int -/
 
